@@ -356,8 +356,10 @@ class Ctx:
         ev = {"property_id": self.pid, "tier": self.tier, "seed": self.seed, "level": "proof",
               "coverage": self.cov, "assumptions": self.assumptions,
               "wall_s": round(time.time() - self.t0, 2), "violations": self.violations}
-        EVIDENCE.mkdir(exist_ok=True)
-        (EVIDENCE / f"{self.pid}.json").write_text(json.dumps(ev, indent=1, default=str))
+        # a gate-skipped development run is not evidence: it is written aside, never to evidence/
+        evdir = (VERIF / "out" / "dev-evidence") if getattr(self, "proof_skipped", False) else EVIDENCE
+        evdir.mkdir(parents=True, exist_ok=True)
+        (evdir / f"{self.pid}.json").write_text(json.dumps(ev, indent=1, default=str))
         status = "OK" if self.violations == 0 else "FAIL"
         print(f"[{self.pid}] {status} tier={self.tier} seed={self.seed} evaluations="
               f"{self.cov['evaluations']} distinct={len(self.distinct)} theorems={n_dis}/{n_obl} "
